@@ -6,6 +6,7 @@ import (
 	"runtime/trace"
 
 	"github.com/gordian-engine/gordian/internal/gchan"
+	"github.com/gordian-engine/gordian/internal/verifhook"
 	"github.com/gordian-engine/gordian/tm/tmconsensus"
 )
 
@@ -120,6 +121,8 @@ func (m *ConsensusManager) Wait() {
 }
 
 func (m *ConsensusManager) kernel(ctx context.Context) {
+	defer verifhook.Catch(ctx, "tsi.consmgr")
+
 	defer close(m.done)
 
 	ctx, task := trace.NewTask(ctx, "ConsensusManager.kernel")
